@@ -43,6 +43,10 @@ type EntrySpec struct {
 	Panic    string             `json:"panic"`    // "violation" (default) | "ignore"
 	Deadlock string             `json:"deadlock"` // "violation" (default) | "ignore"
 	Note     string             `json:"note"`
+	// NativeFailureIsViolation: the harness runs deterministically natively; an
+	// assertion that fails in the native validation run of a path the engine
+	// passed (a stub hiding what the real library does) is reported as a violation
+	NativeFailureIsViolation bool `json:"native_failure_is_violation"`
 }
 
 type UnitSpec struct {
@@ -486,6 +490,26 @@ func cmdCheck(args []string) int {
 						if nv, ok := rr.obs[l]; ok && pv != "?" && nv != pv {
 							mism += fmt.Sprintf(" obs %s: engine %s native %s;", l, pv, nv)
 						}
+					}
+					if e.NativeFailureIsViolation && !rr.done && !rr.skipped && rr.failLabel != "" {
+						listed := false
+						for k := range findings {
+							f := &findings[k]
+							if f.Property == prop && f.Label == rr.failLabel && (f.Entry == "" || f.Entry == e.Name) && f.Status == "open" {
+								listed = true
+								if !knownSeen[e.Name+"\x00"+rr.failLabel] {
+									knownSeen[e.Name+"\x00"+rr.failLabel] = true
+									nKnown++
+									knownLines = append(knownLines, fmt.Sprintf("KNOWN-FINDING: property=%s entry=%s label=%s %s", prop, e.Name, rr.failLabel, f.What))
+								}
+							}
+						}
+						if !listed {
+							nViol++
+							violLines = append(violLines, fmt.Sprintf("VIOLATION property=%s replay=%s", prop, path))
+							fmt.Fprintf(os.Stderr, "  violated natively (the engine's model of a stubbed library passed it): entry=%s label=%s\n", e.Name, rr.failLabel)
+						}
+						continue
 					}
 					if mism != "" {
 						nValMismatch++
